@@ -267,6 +267,20 @@ def o75(ctx):
         if not isinstance(a, Arr) or a.cols != want:
             ctx.finding(qa, "returned angle array", f"a {order} angle file (columns {names}) must be returned in (phi, theta, psi) order",
                         fa, ma, got=[tm.show(c) for c in a.cols] if isinstance(a, Arr) else str(a))
+        # the list is addressed by position (angles map value - numbering): every line of the file, in file order
+        rd = [e for e in it2.events if e.kind == "call" and e.name in ("pandas.read_csv", "pandas.read_table") and isinstance(e.extra.get("ret"), Frame)]
+        if len(rd) != 1:
+            raise Unsupported("read of the angle list file not recognised", fa)
+        same_rows_same_order(ctx, qa, a, rd[0].extra["ret"], f"rot_angles_load({order} file) returns one row per line of the file, in file order", fa, ma)
+    S_ = Space("the caller's angle array", how="root")
+    src_ = Arr([sym("a0"), sym("a1"), sym("a2")], 2, space=S_)
+    it3 = Interp(ctx.prog, assume=assume_map({"isinstance(input_angles, str)": False, "isinstance(input_angles, np.ndarray)": True}))
+    r3 = it3.run(qa, [src_], {"angles_order": K("zxz")})
+    if not isinstance(r3.ret, Arr):
+        raise Unsupported("rot_angles_load(ndarray) result not recognised", fa)
+    same_rows_same_order(ctx, qa, r3.ret, src_, "rot_angles_load(ndarray) returns the rows as given", fa, ma)
+    if True:
+        pass
     # the tm function loads the list with the caller's order
     ral = [e for e in it.events if e.kind == "call" and e.name == "cryocat.ioutils.rot_angles_load"]
     ctx.count(1)
